@@ -70,6 +70,12 @@ fn attach_alias_locations_if_missing(
     ) {
         return err;
     }
+    // An error raised deeper inside the aliased value already names the alias and the exact
+    // node: wrapping it again on the way out (element, then the container holding it) would
+    // replace that node by the container and repeat the location text.
+    if matches!(err, Error::AliasError { .. }) {
+        return err;
+    }
     // If both locations are known and different, create an AliasError to show both.
     // This applies even if the error already has a location (from replayed anchor events),
     // because we want to show where the alias was used, not just where the anchor was defined.
